@@ -319,6 +319,8 @@ def coerce(v: V, like: V) -> V:
             return v
         if isinstance(v, VBool):
             return VInt(z3.If(v.z, 1, 0))
+        if isinstance(v, VOptInt) and z3.is_false(z3.simplify(v.isnone)):
+            return VInt(v.z)
     if isinstance(like, VBool):
         if isinstance(v, VBool):
             return v
